@@ -217,8 +217,46 @@ func runC06(ctx *core.Ctx) {
 			ctx.Check(ok && kind == w, "L1", "lockedfile."+name+"#flag", c.Pos(), "%s opens with constant flag %#x: %s lock (the property requires a %s lock)", name, fl, kind, w)
 		}
 	}
+	// an operation may also get its lock through another operation of the list (Mutex.Lock via Edit)
+	lockKind := func(f *ssa.Function) (kinds []string) {
+		for _, c := range graph(p, f).Instrs2Calls(func(c *ssa.Call) bool {
+			cal := c.Call.StaticCallee()
+			return cal != nil && cal.Pkg == p.Pkg("lockedfile") && cal != OpenFile
+		}) {
+			cal := c.Call.StaticCallee()
+			name := cal.Name()
+			if cal.Signature.Recv() != nil {
+				name = "(*Mutex)." + cal.Name()
+			}
+			if w, known := want[name]; known && seenCaller[name] {
+				kinds = append(kinds, w)
+			}
+		}
+		return
+	}
 	for n := range want {
-		if !seenCaller[n] {
+		if seenCaller[n] {
+			continue
+		}
+		var fn *ssa.Function
+		if strings.HasPrefix(n, "(*Mutex).") {
+			fn = p.Func("lockedfile", "(*Mutex)."+strings.TrimPrefix(n, "(*Mutex)."))
+		} else {
+			fn = p.Func("lockedfile", n)
+		}
+		var kinds []string
+		if fn != nil {
+			kinds = lockKind(fn)
+		}
+		okVia := len(kinds) > 0
+		for _, k := range kinds {
+			if k != want[n] {
+				okVia = false
+			}
+		}
+		if okVia {
+			ctx.OK("L1", "lockedfile."+n+"#flag", fn.Pos(), "%s takes its lock through another operation of the package that opens with a %s lock", n, want[n])
+		} else {
 			ctx.Bad("L1", "lockedfile."+n+"#flag", token.NoPos, "%s no longer calls OpenFile with a constant flag", n)
 		}
 	}
